@@ -45,7 +45,10 @@ CHECKS = {
              "never observe each other, and every explored transition is replayed on real tables over a recorder over "
              "memorydb/LevelDB/Pebble comparing both table views, the snapshot view, the raw content of the underlying store and the "
              "set of raw keys each call wrote. Every Compact(nil,nil) range seen by the recorder is validated by TLC against "
-             "TableCompact.tla (start <= prefix, limit absent or above every key with the prefix).",
+             "TableCompact.tla (start <= prefix, limit absent or above every key with the prefix). Tables are also driven the way "
+             "callers use them (TableIter.tla, trace validation): iterators held open while lookups and writes go through the same "
+             "table, a sibling table and the store underneath, with prefix/key slices that have spare capacity and caller-owned "
+             "buffers overwritten after each call; an iterator that saw no write since its creation must yield exactly the view.",
         note="Exhaustive only within the bounded model (3-4 table keys incl. the empty key, 3 noise keys, depth 2 from 2-4 designed "
              "states per prefix pair). Only whole-table compaction is judged. The recorder counts batch keys as written when the batch "
              "is written.",
